@@ -86,6 +86,19 @@ def rule_prologue_trailer(check):
         atoms = gate.atoms_at(g, n)
         ok, extra = gate.modified_gate(prog, g, atoms)
         v = [a[2].split("::")[-1] for a in atoms if a[0] == "variant" and a[3] is True and isinstance(a[2], str) and "Program::" in a[2]]
+        # nothing else may decide: the status test (direct or through a predicate), the Script / Module
+        # arm of the program, and loops / closures over the prologue statements are all a path may carry
+        import re as _re
+        for a in atoms:
+            if a[0] in ("closure", "loop", "try"):
+                continue
+            if a[0] == "eq" and any(isinstance(x, str) and x.endswith("Status::Modified") for x in a[1:3]):
+                continue
+            if a[0] in ("variant", "arm_not") and any("Program::" in str(x) or "Status::" in str(x) for x in a[1:3]):
+                continue
+            if a[0] == "call" and a[4] is True and gate.modified_gate(prog, g, [a])[0]:
+                continue
+            extra = list(extra) + [_re.sub(r"#\d+", "", "%s%s(%s)" % ("" if a[-2] is True or a[0] != "call" else "!", a[1], a[3] or "")) if a[0] == "call" else _re.sub(r"#\d+", "", str(a[:4]))]
         if ok and extra:
             check.bad(R, "%s/prologue/%s" % (R, v[0] if v else g.name), hir.loc(n), "the prologue is inserted only if %s: a Modified file can come back without its prologue" % "; ".join(extra))
             continue
